@@ -376,6 +376,34 @@ func AwaitSelect(chs ...interface{}) int {
 	return pick
 }
 
+// PollSelect is the non-blocking form (select with a default clause): a scheduling point, then the
+// index of a channel that is ready to receive, or -1 when none is (the default branch).
+func PollSelect(chs ...interface{}) int {
+	e := cur
+	if e == nil {
+		panic("vsched.PollSelect outside an execution")
+	}
+	e.yield("select/default", nil)
+	var ready []int
+	vs := make([]reflect.Value, len(chs))
+	ps := make([]uintptr, len(chs))
+	for i, c := range chs {
+		vs[i], ps[i] = chanPtr(c)
+		if vs[i].Len() > 0 || e.closed[ps[i]] {
+			ready = append(ready, i)
+		}
+	}
+	if len(ready) == 0 {
+		return -1
+	}
+	pick := ready[0]
+	if len(ready) > 1 {
+		pick = ready[e.choose(len(ready))]
+	}
+	e.recvEdge(ps[pick], vs[pick])
+	return pick
+}
+
 // choose is a data choice (not a thread switch): recorded as a point with n pseudo options.
 func (e *Exec) choose(n int) int {
 	choice := 0
